@@ -369,11 +369,26 @@ func evaluate(c tcase) (got observed, tags []string, fails []core.Failure, err e
 	irs, ierrs := inlineNamed(named, rs), inlineNamed(named, errs)
 	// one server, three requests: the case's request, a different one, the case's request again
 	other := request{(q.method + 1) % 2, (q.host + 1) % 3, (q.path + 1 + int(fnv(c.line())%5)) % 6, (q.hdr + 1) % 3}
-	seq, err := serveSeq(rs, hasErrs, errs, []request{q, other, q}, named)
+	seq, err := func() ([]observed, error) {
+		serveConcurrently = fnv(c.line())%3 == 1
+		defer func() { serveConcurrently = false }()
+		return serveSeq(rs, hasErrs, errs, []request{q, other, q}, named)
+	}()
 	if err != nil {
 		return
 	}
 	got = seq[2]
+	// ---- oracle 5: requests served at the same time on one server do not interfere
+	if len(seq) == 7 {
+		tags = append(tags, "concurrent-requests-checked")
+		for i, o := range seq[3:] {
+			if canon(o) != canon(seq[i%2]) {
+				fails = append(fails, fail("concurrent-requests-interfere",
+					fmt.Sprintf("four requests served concurrently by one server: one of them got %s, alone it gets %s", canon(o), canon(seq[i%2]))))
+				break
+			}
+		}
+	}
 
 	// ---- oracle 1: the documented routing rules, evaluated directly
 	want, tset := specEval(irs, hasErrs, ierrs, q)
@@ -391,6 +406,15 @@ func evaluate(c tcase) (got observed, tags []string, fails []core.Failure, err e
 	}
 	if class, what := diffClass(got, want); class != "" {
 		fails = append(fails, fail(class, what))
+	}
+
+	// ---- oracle 1c: what WithError tells the error routes besides the status code
+	// ({http.error}, .status_text, .message, .id, .trace) fits the error being handled
+	for _, e := range got.events {
+		if e.bad != "" {
+			fails = append(fails, fail("error-placeholders-do-not-fit", fmt.Sprintf("handler %d: %s", e.id, e.bad)))
+			break
+		}
 	}
 
 	// ---- oracle 0: routing is a function of the configuration and the request — nothing is
